@@ -25,25 +25,25 @@ EXTENDS SigFramingOps, TLC, Json
 
 Trace == ndJsonDeserialize("trace.ndjson")
 
-NS == 2
+NS == 4
 Str == 1..NS
 Inf == 1000000
 
-VARIABLES l, failed, mode, cap, F,
+VARIABLES l, failed, mode, cap, F, devOf,
           lens, vers, starts, ids, wr,        \* per stream: the valid packets, their ids, bytes written
           c, frames,                          \* per stream: bytes framed, abstract frames
           rl, rli,                            \* per stream: model reassembly list with the real / no capacity bound
           pending,                            \* emissions the model expects for the current delivery: <<[s, k]>>
           nemit, capflush, nmodel, nmodeli    \* per stream counters
-vars == <<l, failed, mode, cap, F, lens, vers, starts, ids, wr, c, frames, rl, rli, pending, nemit, capflush,
+vars == <<l, failed, mode, cap, F, devOf, lens, vers, starts, ids, wr, c, frames, rl, rli, pending, nemit, capflush,
           nmodel, nmodeli>>
-state == <<mode, cap, F, lens, vers, starts, ids, wr, c, frames, rl, rli, pending, nemit, capflush, nmodel, nmodeli>>
+state == <<mode, cap, F, devOf, lens, vers, starts, ids, wr, c, frames, rl, rli, pending, nemit, capflush, nmodel, nmodeli>>
 
 R == Trace[l]
 E == [s \in Str |-> <<>>]
 Z == [s \in Str |-> 0]
 
-Init == /\ l = 1 /\ failed = FALSE /\ mode = "faulty" /\ cap = 100 /\ F = <<>>
+Init == /\ l = 1 /\ failed = FALSE /\ mode = "faulty" /\ cap = 100 /\ F = <<>> /\ devOf = <<>>
         /\ lens = E /\ vers = E /\ starts = E /\ ids = E /\ wr = Z /\ c = Z /\ frames = E
         /\ rl = E /\ rli = E /\ pending = <<>> /\ nemit = Z /\ capflush = [s \in Str |-> FALSE]
         /\ nmodel = Z /\ nmodeli = Z
@@ -51,7 +51,7 @@ Init == /\ l = 1 /\ failed = FALSE /\ mode = "faulty" /\ cap = 100 /\ F = <<>>
 Bad(key) == PrintT(<<"VERIF-BAD", l, key>>) /\ failed' = TRUE /\ UNCHANGED state
 Drift(key) == PrintT(<<"VERIF-DRIFT", l, key>>)
 
-Reset == /\ failed' = FALSE /\ mode' = R.mode /\ cap' = R.cap /\ F' = R.F
+Reset == /\ failed' = FALSE /\ mode' = R.mode /\ cap' = R.cap /\ F' = R.F /\ devOf' = R.dev
          /\ lens' = E /\ vers' = E /\ starts' = E /\ ids' = E /\ wr' = Z /\ c' = Z /\ frames' = E
          /\ rl' = E /\ rli' = E /\ pending' = <<>> /\ nemit' = Z /\ capflush' = [s \in Str |-> FALSE]
          /\ nmodel' = Z /\ nmodeli' = Z
@@ -64,7 +64,7 @@ Write ==
            /\ starts' = [starts EXCEPT ![s] = Append(@, wr[s])]
            /\ ids' = [ids EXCEPT ![s] = Append(@, R.id)]
            /\ wr' = [wr EXCEPT ![s] = @ + R.len]
-           /\ UNCHANGED <<failed, mode, cap, F, c, frames, rl, rli, pending, nemit, capflush, nmodel, nmodeli>>
+           /\ UNCHANGED <<failed, mode, cap, F, devOf, c, frames, rl, rli, pending, nemit, capflush, nmodel, nmodeli>>
       ELSE UNCHANGED <<failed, state>>
 
 ExpectedIdx(s, n) ==
@@ -89,7 +89,7 @@ Frame ==
     ELSE /\ (FrameDrift(s) # "" => Drift(FrameDrift(s)))
          /\ frames' = [frames EXCEPT ![s] = Append(@, [seq |-> R.seq, index |-> R.index, n |-> R.n, c |-> c[s]])]
          /\ c' = [c EXCEPT ![s] = @ + R.n]
-         /\ UNCHANGED <<failed, mode, cap, F, lens, vers, starts, ids, wr, rl, rli, pending, nemit, capflush,
+         /\ UNCHANGED <<failed, mode, cap, F, devOf, lens, vers, starts, ids, wr, rl, rli, pending, nemit, capflush,
                         nmodel, nmodeli>>
 
 Eof == IF R.early = 1 THEN Bad("sender:read-returned-nil-with-data-pending")
@@ -104,6 +104,11 @@ PktNums(out, i, s) == IF i > Len(out) THEN <<>>
 \* stream id) are outside the statement's fault model: the receiver model is not run, an emitted packet that
 \* was never sent is recorded as drift; only a panic is a failure there.
 Adv == mode = "adversarial"
+\* ingress traces: the frames of up to four senders (different remote gateways / session ids, the same stream id
+\* and overlapping sequence numbers), each complete and in order, pass through the real IngressServer (worker
+\* selection, one goroutine per worker): every stream must come out exactly, on the device of its remote ISD-AS.
+Ingress == mode = "ingress"
+InOrder == mode \in {"lossless", "ingress"}
 Skip == UNCHANGED <<failed, state>>
 
 Deliver ==
@@ -120,7 +125,7 @@ Deliver ==
     /\ nmodel' = [nmodel EXCEPT ![s] = @ + Len(r.out)]
     /\ nmodeli' = [nmodeli EXCEPT ![s] = @ + Len(ri.out)]
     /\ capflush' = [capflush EXCEPT ![s] = @ \/ full]
-    /\ UNCHANGED <<failed, mode, cap, F, lens, vers, starts, ids, wr, c, frames, nemit>>
+    /\ UNCHANGED <<failed, mode, cap, F, devOf, lens, vers, starts, ids, wr, c, frames, nemit>>
 
 \* index of id among the valid packets of stream s (0: not a valid packet of s)
 ValidIdx(s, id) == IF s \notin Str THEN 0
@@ -135,23 +140,24 @@ Emit ==
     IF Adv THEN (IF R.id = 0 THEN Drift("adversarial:emitted-packet-is-not-a-sent-packet") /\ Skip ELSE Skip)
     ELSE IF R.id = 0 THEN Bad("recv:emitted-packet-is-not-a-sent-packet")
     ELSE IF k = 0 THEN Bad("recv:invalid-packet-emitted")
-    ELSE IF mode = "lossless" /\ k <= nemit[s] THEN Bad("lossless:packet-emitted-twice-or-out-of-order")
-    ELSE IF mode = "lossless" /\ k > nemit[s] + 1
+    ELSE IF Ingress /\ R.dev # devOf[s] THEN Bad("ingress:packet-written-to-the-device-of-another-remote")
+    ELSE IF InOrder /\ k <= nemit[s] THEN Bad("lossless:packet-emitted-twice-or-out-of-order")
+    ELSE IF InOrder /\ k > nemit[s] + 1
       THEN Bad("lossless:packet-lost" \o (IF asModel THEN Cause(s) ELSE ""))
-    ELSE /\ (~asModel => Drift("recv:emission-differs-from-model"))
+    ELSE /\ ((~asModel /\ ~Ingress) => Drift("recv:emission-differs-from-model"))
          /\ pending' = IF pending # <<>> THEN Tail(pending) ELSE pending
          /\ nemit' = [nemit EXCEPT ![s] = IF k > @ THEN k ELSE @]
-         /\ UNCHANGED <<failed, mode, cap, F, lens, vers, starts, ids, wr, c, frames, rl, rli, capflush, nmodel, nmodeli>>
+         /\ UNCHANGED <<failed, mode, cap, F, devOf, lens, vers, starts, ids, wr, c, frames, rl, rli, capflush, nmodel, nmodeli>>
 
 Proj(fb) == <<fb.seq, fb.index, fb.flen, fb.frag0Start, fb.pktLen>>
 St == IF Adv THEN Skip ELSE
       /\ (pending # <<>> => Drift("recv:model-expected-more-emissions"))
       /\ ([i \in 1..Len(rl[R.s]) |-> Proj(rl[R.s][i])] # R.list => Drift("recv:reassembly-state-differs"))
       /\ pending' = <<>>
-      /\ UNCHANGED <<failed, mode, cap, F, lens, vers, starts, ids, wr, c, frames, rl, rli, nemit, capflush, nmodel, nmodeli>>
+      /\ UNCHANGED <<failed, mode, cap, F, devOf, lens, vers, starts, ids, wr, c, frames, rl, rli, nemit, capflush, nmodel, nmodeli>>
 
 End ==
-    IF mode = "lossless" /\ \E s \in Str : nemit[s] # Len(ids[s])
+    IF InOrder /\ \E s \in Str : nemit[s] # Len(ids[s])
       THEN LET s == CHOOSE x \in Str : nemit[x] # Len(ids[x]) IN
            Bad("lossless:packet-lost" \o (IF nmodel[s] = nemit[s] /\ nmodeli[s] = Len(ids[s]) THEN Cause(s) ELSE ""))
     ELSE IF \E s \in Str : c[s] # wr[s] THEN Bad("sender:not-everything-framed")
@@ -164,6 +170,7 @@ Step == /\ l <= Len(Trace)
            ELSE CASE R.ev = "write" -> Write
                   [] R.ev = "frame" -> Frame
                   [] R.ev = "eof" -> Eof
+                  [] R.ev = "timeout" -> Bad("ingress:last-packet-of-a-stream-not-delivered")
                   [] R.ev = "stuck" -> Bad("sender:read-blocks-with-data-pending")
                   [] R.ev = "panic" -> Bad("panic:" \o R.where)
                   [] R.ev = "deliver" -> Deliver
